@@ -90,7 +90,9 @@ class History:
             f.write("content %d\n" % b if b else "")
         if self.rng.chance(1, 4):
             # content that arrives with an old timestamp (cp -p, mv, tar x, rsync -t)
-            old = time.time() - self.rng.pick([3600, 86400, 10 * 86400])
+            # (every such write gets its own second: git compares whole seconds, and two same-sized
+            # versions of a file carrying the same old timestamp would look identical to it)
+            old = time.time() - self.rng.pick([3600, 86400, 10 * 86400]) - 3 * self.blob
             os.utime(full, (old, old))
         if p not in self.known:
             self.known.append(p)
@@ -161,6 +163,9 @@ class History:
         self.events.append(["commit"])
         self.log.append("git commit")
 
+    def index_differs_from_head(self):
+        return self.repo.git("diff", "--cached", "--name-only", "HEAD").strip() != ""
+
     def op_amend(self):
         """rewrite the tip commit: the checkpoint may then name a commit that is no ancestor of HEAD;
         what is reported is a difference of trees, so for the model this is just another commit"""
@@ -180,7 +185,7 @@ class History:
             data = open(full, "rb").read()
             with open(full, "wb") as f:
                 f.write(data)
-        t = time.time() - self.rng.pick([7, 3600, -5])
+        t = time.time() - self.rng.pick([7, 3600, -5]) - 3 * self.blob
         os.utime(full, (t, t))
         self.log.append("touch %r" % p)
 
@@ -457,9 +462,21 @@ def run_history(seed, prop, model, rep, length):
                             if fail("C07", "run executed something right after checkpoint update --pending", rc=rc3,
                                     started=[t["target"] for t in r.traces()]):
                                 return
+                    amended = False
+                    if rng.chance(1, 4) and len(h.shas) > 1 and not h.index_differs_from_head():
+                        amended = True
+                        # the checkpointed commit is rewritten with the same content (message only):
+                        # still nothing has changed since the checkpoint
+                        h.op_amend()
+                        rc2, j2, err2 = h.analyze_changes()
+                        if rc2 != 0 or j2 is None or j2.get("targets") or j2.get("changes"):
+                            if fail("C07", "something is still changed right after checkpoint update --pending",
+                                    after="git commit --amend (same tree)", targets=(j2 or {}).get("targets"),
+                                    changes=[c["path"] for c in (j2 or {}).get("changes", [])][:10]):
+                                return
                     rep.nontrivial_case({"seed": seed, "step": step, "k": "c07"})
                     # a later edit re-flags exactly the targets affected by that path
-                    if rng.chance(2, 3):
+                    if rng.chance(2, 3) and not amended:
                         kind = rng.below(3)
                         if emptied and os.path.isfile(os.path.join(r.dir, emptied)) and os.path.getsize(os.path.join(r.dir, emptied)) == 0:
                             p = h.op_delete(emptied)      # the emptied file disappears: that is a change
@@ -486,6 +503,17 @@ def run_history(seed, prop, model, rep, length):
                         rep.count("reflag_checked")
                 if do_query(step):
                     return
+                if mid is None and rng.chance(1, 4):
+                    # the commit the checkpoint names is rewritten (amend): it is no ancestor of HEAD
+                    # any more; what has changed is still the difference from that commit's tree
+                    h.op_write(allow_empty=False)
+                    h.op_addall()
+                    h.op_amend()
+                    rep.count("checkpoint_commit_amended")
+                    if rng.chance(1, 2):
+                        h.op_write(allow_empty=False)
+                    if do_query(step):
+                        return
             elif k < 82 and rng.chance(1, 2):
                 # HEAD does not resolve to a commit (an orphan branch before its first commit):
                 # an update without --id has nothing to record and must fail, leaving the stored
